@@ -103,7 +103,7 @@ def generate(rng, tier):
         if r.random() < 0.55:
             sub = "dc/p%d" % i
             dirs.append(sub)
-            for n in r.sample(["a", "b", "c", "d", "e"], r.randint(0, 4)):
+            for n in r.sample(["a", "b", "c", "d", "e", "9", "10", "100", "2-x", "B"], r.randint(0, 4)):
                 fn = "%s/%s.yaml" % (sub, n)
                 c = r.random()
                 if c < 0.62:
